@@ -25,7 +25,15 @@ RULE = ("operation traces (10-56 draws, each 1-4 operations) over 4 users x 4 cl
         "dicts handed back by a query are emptied / scribbled on by the caller; after EVERY operation the whole database "
         "is snapshotted and EVERY identifier handed out so far is resolved again (decrypt -> path, sm[id] -> node); "
         "a case is one trace, non-trivial when it contains an accepted add_grant, a delete or revoke and a query; plus "
-        "pure codec cases for lv_pack / lv_unpack / branch_key / unpack_branch_key / int()")
+        "pure codec cases for lv_pack / lv_unpack / branch_key / unpack_branch_key / int(); "
+        "CREATION goes through every entry point (add_grant / add_exchange_grant with an explicit path, create_session / "
+        "create_grant / create_exchange_session / create_exchange_grant through make_path; sub_type public / pairwise / "
+        "ephemeral) and revoke_client_session is an operation; a second family of histories draws users and clients from "
+        "pools of NORMALISATION-EQUIVALENT-BUT-DIFFERENT identifiers (one base string and its spellings with leading / "
+        "trailing white space of every kind str.strip() removes, other letter case / case folding, NFC / NFD / NFKC / NFKD "
+        "forms, a trailing NUL, zero-width characters): after every creation the session id, get_session_info, "
+        "get_user_info(user), get([user, client]), grants(sid) and get_authentication_events(user_id, client_id) are asked "
+        "with the identifiers exactly as given, and only the three nodes of the created path may have changed")
 ASSUMPTIONS = ["the encrypter under a branch id (cryptojwt's FernetEncrypter over cryptography's Fernet, an authenticated "
                "encryption) hands back the plaintext up to trailing blanks: decrypt(encrypt(m)) = rstrip_blanks(m + blanks) - it "
                "pads with U+0020 and strips every trailing U+0020; the library's framing lv_pack(rnd, key, '') makes that "
@@ -74,8 +82,40 @@ IDS_OK = ["diana", "u2", "client_1", "c", "x:y", "3:abc", "a;b", " lead", "trail
           ";lead", ";a;b", "dian", "client_12", "", " ", "end  "]    # the empty identifier (default of create_session); a single ';' at the start is legal; string-prefix relations
 IDS_BAD = ["a;;b", "semi;", ";;", "x;;;y", ";"]
 
+# ---- normalisation-equivalent-but-different identifiers: every string of a family is a DIFFERENT identifier
+WHITE = [" ", "\t", "\n", "\r", "\x0b", "\x0c", "\x1c", "\x1d", "\x1e", "\x1f", "\x85", "\xa0", "\u1680", "\u2000",
+         "\u2003", "\u2009", "\u200a", "\u2028", "\u2029", "\u202f", "\u205f", "\u3000"]      # what str.strip() removes
+BASES = ["alice", "rp", "Zo\u00eb", "\ufb01ona", "stra\u00dfe", "\uff21dmin", "client_1", "\u0130d", "o\u0308zil", "", "\u212bngstr\u00f6m",
+         "https://rp.example/cb"]
+
+
+def equiv_family(base):
+    """different strings that some normalisation (strip, case mapping, Unicode normal form, cut at NUL, removal of
+    zero-width characters) maps to the same string as `base`; base first"""
+    import unicodedata
+    out = [base]
+    for w in WHITE:
+        out += [base + w, w + base]
+    out += ["\t" + base + "\n", " " + base + " ", base + "  ", base + "\r\n", "\u3000" + base + "\xa0"]
+    out += [base.upper(), base.lower(), base.capitalize(), base.swapcase(), base.casefold(), base.title()]
+    out += [unicodedata.normalize(f, base) for f in ("NFC", "NFD", "NFKC", "NFKD")]
+    out += [unicodedata.normalize("NFKC", base).casefold(), unicodedata.normalize("NFD", base.upper())]
+    out += [base + "\x00", base + "\x00x", "\ufeff" + base, base + "\u200b", base + "\u00ad"]
+    seen, fam = set(), []
+    for x in out:
+        if x not in seen:
+            seen.add(x)
+            fam.append(x)
+    return fam
+
+
+ENTRIES = ["add_grant", "create_session", "create_grant", "create_exchange_session", "create_exchange_grant", "add_exchange_grant"]
+COQ_ENTRY = {"add_grant": "EAddGrant", "create_session": "ECreateSession", "create_grant": "ECreateGrant",
+             "create_exchange_session": "ECreateExchangeSession", "create_exchange_grant": "ECreateExchangeGrant",
+             "add_exchange_grant": "EAddExchangeGrant"}
+
 POOL_CAP = 30          # identifiers that are re-resolved after every operation
-LEVEL_CLASS = {1: "UserSessionInfo", 2: "ClientSessionInfo", 3: "Grant"}
+LEVEL_CLASS = {1: ("UserSessionInfo",), 2: ("ClientSessionInfo",), 3: ("Grant", "ExchangeGrant")}   # an ExchangeGrant is a Grant
 NODE_TYPES = ["user", "client", "grant"]
 
 
@@ -151,18 +191,26 @@ class TraceRun:
     a path or an identifier of any level.  After EVERY operation: whole-database snapshot, and every identifier
     handed out so far is resolved again (decrypt_branch_id and sm[id])."""
 
-    def __init__(self, ctx, server, rng, n, hostile, scribble):
+    def __init__(self, ctx, server, rng, n, hostile, scribble, equiv=False):
         self.ctx, self.rng, self.n = _Capped(ctx), rng, n
+        self.equiv = equiv
         self.scribble = scribble    # the caller empties / appends to every list or dict a query hands back
         self.sm = server.context.session_manager
         self.sm.flush()
         self.users = rng.sample(IDS_OK, 3) + ([rng.choice(IDS_BAD)] if hostile else [])
         self.clients = rng.sample(IDS_OK, 3) + ([rng.choice(IDS_BAD)] if hostile else [])
+        if equiv:
+            # users of one family, clients of another: any two of them are different identifiers
+            fu, fc = equiv_family(rng.choice(BASES)), equiv_family(rng.choice(BASES))
+            self.users = ([fu[0]] if rng.random() < 0.7 else []) + rng.sample(fu[1:], 3)
+            self.clients = ([fc[0]] if rng.random() < 0.7 else []) + rng.sample(fc[1:], 2)
+            rng.shuffle(self.users)
+            rng.shuffle(self.clients)
         self.pool = []          # identifiers handed out: {bid, plain, path, how, grant}
         self.live = []          # (sid, path, grant object) of add_grant
         self.all_paths = []
         self.steps = []         # (xop, out, snapshot, resolution vector)
-        self.rec = {"users": self.users, "clients": self.clients,
+        self.rec = {"users": self.users, "clients": self.clients, "identifier_pools": "normalisation-equivalent" if equiv else "hostile alphabet",
                     "after_every_op": "every identifier handed out so far is resolved again: decrypt_branch_id(id), sm[id]",
                     "caller_modifies_returned_lists": scribble, "ops": []}
         self.sid_cases = []
@@ -256,7 +304,7 @@ class TraceRun:
                 elif node is not sm.db[key]:
                     ctx.violation("sid-resolution", "identifier no %d issued for %r: sm[id] gives the node stored at %r after %r"
                                   % (e["n"], path, k, rec_op), self.rec)
-                elif type(node).__name__ != LEVEL_CLASS.get(len(path)):
+                elif type(node).__name__ not in LEVEL_CLASS.get(len(path), ()):
                     ctx.violation("sid-resolution", "identifier no %d issued for the %d-level path %r gives a %s"
                                   % (e["n"], len(path), path, type(node).__name__), self.rec)
                 elif e["grant"] is not None and node is not e["grant"]:
@@ -278,7 +326,7 @@ class TraceRun:
         sm, ctx, rec = self.sm, self.ctx, self.rec
         before, before_deep = before
         s = snap(sm)
-        rec_op = [api] + ([self.describe_target(xop[1])] if xop[0] in ("query", "revoke_id", "remove_id") else []) + \
+        rec_op = [api] + ([self.describe_target(xop[1])] if xop[0] in ("query", "revoke_id", "remove_id", "revoke_client") else []) + \
                  ([list(op[1:])] if op is not None and xop[0] == "op" else []) + ([xop[2]] if xop[0] == "revoke_id" else [])
         rec["ops"].append({"op": rec_op, "out": out if out[0] == "err" else "ok", "n_nodes": len(s)})
         after = {k: (g, i, tuple(sb), r) for k, g, i, sb, r in s}
@@ -297,6 +345,13 @@ class TraceRun:
                     kr = k.split(";;")[0]
                     if kr != root and before.get(k) != after.get(k):
                         ctx.violation("frame", "op %r on branch %r changed node %r of another user" % (op, root, k), rec)
+            if op[0] == "add" and okout == "ok":
+                own = {op[1], ";;".join(op[1:3]), ";;".join(op[1:4])}
+                for k in set(before) | set(after):
+                    if k not in own and before.get(k) != after.get(k):
+                        ctx.violation("frame", "creation (%s) for %r changed node %r, which is not on its path" % (op[4], list(op[1:4]), k), rec)
+                if ";;".join(op[1:4]) not in after or not after[";;".join(op[1:4])][0]:
+                    ctx.violation("orphan", "creation (%s) for %r: no grant is stored under its path" % (op[4], list(op[1:4])), rec)
             if op[0] == "delete" and okout == "ok":
                 key = ";;".join(op[1])
                 if key in before:
@@ -354,27 +409,138 @@ class TraceRun:
         self.steps.append((xop, out, s, vec, op))
 
     # ---------------------------------------------------------------- mutating operations
-    def op_add(self):
+    def create(self, entry, u, c):
+        """one creation through the entry point `entry`; the identifiers go in exactly as drawn"""
         from idpyoidc.server.authn_event import create_authn_event
+        from idpyoidc.message.oidc import AuthorizationRequest
+        from idpyoidc.message.oauth2 import TokenExchangeRequest
+        sm, rng = self.sm, self.rng
+        if entry in ("add_grant",):
+            return sm.add_grant([u, c], authentication_event=create_authn_event(u))
+        if entry in ("create_session", "create_grant"):
+            areq = AuthorizationRequest(client_id=c, redirect_uri="https://rp.example/cb", scope=["openid"], state="STATE",
+                                        response_type="code")
+            sub_type = rng.choice(["public", "public", "pairwise", "ephemeral"])
+            return getattr(sm, entry)(create_authn_event(u), areq, user_id=u, client_id=c, sub_type=sub_type,
+                                      sector_identifier="https://sector.example" if sub_type == "pairwise" else "")
+        # token exchange: the new grant descends from a stored grant (of any user / client)
+        sid0, _, g0 = rng.choice([l for l in self.live if ";;".join(l[1]) in sm.db])
+        xreq = TokenExchangeRequest(grant_type="urn:ietf:params:oauth:grant-type:token-exchange", subject_token="tok",
+                                    subject_token_type="urn:ietf:params:oauth:token-type:access_token")
+        if entry == "add_exchange_grant":
+            return sm.add_exchange_grant(exchange_request=xreq, original_branch_id=sid0, path=[u, c],
+                                         authentication_event=g0.authentication_event, sub=g0.sub)
+        return getattr(sm, entry)(xreq, g0, sid0, user_id=u, client_id=c)
+
+    def creation_oracle(self, sid, u, c, gid, grant, before):
+        """written from the property text: the session id handed out resolves to exactly the user, client and grant it
+        was created for, and the identifiers AS GIVEN name the nodes of this creation - not those of another identifier"""
+        sm, ctx, rec = self.sm, self.ctx, self.rec
+        db = sm.db
+
+        def bad(what):
+            ctx.violation("creation-verbatim", "creation for user %r client %r: %s" % (u, c, what), rec)
+        try:
+            info = sm.get_session_info(sid)
+            if info["user_id"] != u or info["client_id"] != c or info["grant_id"] != gid:
+                bad("get_session_info(sid) names (%r, %r, %r)" % (info["user_id"], info["client_id"], info["grant_id"]))
+            if info["grant"] is not grant or getattr(info["user"], "id", None) != u or getattr(info["client"], "id", None) != c:
+                bad("get_session_info(sid) hands back the nodes of user %r client %r" % (getattr(info["user"], "id", None),
+                                                                                         getattr(info["client"], "id", None)))
+        except Exception as err:
+            bad("get_session_info(sid) raises %r" % (err,))
+        try:
+            un = sm.get_user_info(u)
+            if un.id != u:
+                bad("get_user_info(%r) gives the node of user %r" % (u, un.id))
+        except Exception as err:
+            un = None
+            bad("get_user_info(%r) raises %r although the user has a session" % (u, err))
+        try:
+            cn = sm.get([u, c])
+            if getattr(cn, "id", None) != c or type(cn).__name__ != "ClientSessionInfo":
+                bad("get([user, client]) gives %s %r" % (type(cn).__name__, getattr(cn, "id", None)))
+            elif un is not None and not any(db.get(k) is cn for k in un.subordinate):
+                bad("the client node is not listed by the user node of %r" % (u,))
+            elif not any(db.get(k) is grant for k in cn.subordinate):
+                bad("the new grant is not listed by the client node of (%r, %r)" % (u, c))
+        except Exception as err:
+            cn = None
+            bad("get([%r, %r]) raises %r although the pair has a session" % (u, c, err))
+        if ";" not in u + c:
+            # the grants of this very pair: what was stored for it before, plus the new one
+            ck = u + ";;" + c + ";;"
+            mine_before = sorted(k for k, v in before[0].items() if v[0] and k.startswith(ck))
+            try:
+                got = sm.grants(sid)
+                idmap = {id(v): k for k, v in db.items()}
+                keys = sorted(idmap.get(id(g), "<not stored>") for g in got)
+                if keys != sorted(mine_before + [ck + gid]):
+                    bad("grants(sid) lists %r; this pair had %r and was given %r" % (keys, mine_before, ck + gid))
+            except Exception as err:
+                bad("grants(sid) raises %r" % (err,))
+            if u and c:
+                try:
+                    evs = sm.get_authentication_events(user_id=u, client_id=c)
+                    if len(evs) != len(mine_before) + 1 or not any(e is grant.authentication_event for e in evs):
+                        bad("get_authentication_events(user_id, client_id) gives %d events, the pair has %d grants"
+                            % (len(evs), len(mine_before) + 1))
+                except Exception as err:
+                    bad("get_authentication_events(user_id=%r, client_id=%r) raises %r" % (u, c, err))
+
+    def op_add(self):
         sm, rng = self.sm, self.rng
         u, c = rng.choice(self.users), rng.choice(self.clients)
+        entry = rng.choice(ENTRIES)
+        if entry in ("create_exchange_session", "create_exchange_grant", "add_exchange_grant") and \
+                not any(";;".join(l[1]) in sm.db for l in self.live):
+            entry = {"add_exchange_grant": "add_grant", "create_exchange_grant": "create_grant"}.get(entry, "create_session")
         before = self.before()
         gid, out = "x", ("ok", [], [])
+        made = None
         try:
-            sid = sm.add_grant([u, c], authentication_event=create_authn_event(u))
+            sid = self.create(entry, u, c)
             path = sm.decrypt_branch_id(sid)
             gid = path[-1] if len(path) == 3 else "x"
             grant = sm[sid]
+            if type(grant).__name__ == "ExchangeGrant" and grant.authentication_event is not None:
+                # the library lets an exchange grant share the AuthnEvent OBJECT of the grant it descends from; the
+                # driver tells whose event an answer of get_authentication_events is by object identity, so the new
+                # grant is given its own copy (same content)
+                grant.authentication_event = copy.copy(grant.authentication_event)
             self.live.append((sid, [u, c, gid], grant))
             self.all_paths.append([u, c, gid])
             # oracle: resolves to exactly what it was created for
             if path != [u, c, gid] or len(path) != 3:
-                self.ctx.violation("sid-resolution", "session id created for %r resolves to %r" % ([u, c], path), self.rec)
-            self.register(sid, [u, c, gid], "add_grant", grant=grant, pooled=len(self.pool) < POOL_CAP + 10)
+                self.ctx.violation("sid-resolution", "session id created (%s) for %r resolves to %r" % (entry, [u, c], path), self.rec)
+            self.register(sid, [u, c, gid], entry, grant=grant, pooled=len(self.pool) < POOL_CAP + 10)
+            made = (sid, grant)
         except Exception as e:
             out = ("err", exc_name(e))
-        op = ("add", u, c, gid)
-        self.finish(("op", op), out, before, "add_grant", readonly=False, op=op)
+        if made is not None:
+            self.creation_oracle(made[0], u, c, gid, made[1], before)
+        op = ("add", u, c, gid, entry)
+        self.ctx.count("create:" + entry)
+        self.finish(("op", op), out, before, entry, readonly=False, op=op)
+
+    def op_revoke_client(self):
+        """revoke_client_session(id): through a session id handed out by a creation, or any other identifier"""
+        rng, sm = self.rng, self.sm
+        if not self.all_paths:
+            return
+        path = rng.choice(self.all_paths)
+        if rng.random() < 0.2:
+            path = path[:rng.choice([1, 2])]
+        e = self.id_for(path, fresh_p=0.15)
+        if e is None:
+            return
+        before = self.before()
+        out = ("ok", [], [])
+        try:
+            sm.revoke_client_session(e["bid"])
+        except Exception as err:
+            out = ("err", exc_name(err))
+        self.finish(("revoke_client", ("id", e)), out, before, "revoke_client_session", readonly=False, op=("revoke", list(path), 1))
 
     def op_revoke(self):
         rng, sm = self.rng, self.sm
@@ -614,8 +780,10 @@ class TraceRun:
             r = rng.random()
             if r < 0.28:
                 self.op_add()
-            elif r < 0.38:
+            elif r < 0.35:
                 self.op_revoke()
+            elif r < 0.38:
+                self.op_revoke_client()
             elif r < 0.56:
                 self.op_delete()
             elif r < 0.59:
@@ -696,6 +864,14 @@ def coq_xtrace(I, tr):
             return "(ODelete %s)" % I.strs(op[1])
         return "OFlush"
 
+    def cop(x):
+        if x[0] == "op" and x[1][0] == "add":
+            o = x[1]
+            return "(CCreate %s %s %s %s false)" % (COQ_ENTRY[o[4]], I.s(o[1]), I.s(o[2]), I.s(o[3]))
+        if x[0] == "revoke_client":
+            return "(CRevokeClientSession %s)" % target(x[1])
+        return "(CX %s)" % xop(x)
+
     def xop(x):
         if x[0] == "op":
             return "(XOp %s)" % old_op(x[1])
@@ -713,17 +889,18 @@ def coq_xtrace(I, tr):
     for x, out, snp, vec, op in tr.steps:
         ans = res(out, lambda o: "(%s, %s)" % (I.strs(o[1]), I.nodes(o[2])))
         rv = I.share(coq_list([rvec(v) for v in vec], "rvec"), "list rvec", "v")
-        steps.append("(%s, (%s, %s, %s))" % (xop(x), ans, I.nodes(snp), rv))
+        steps.append("(%s, (%s, %s, %s))" % (cop(x), ans, I.nodes(snp), rv))
         if op is not None:
             # the same history as the mutating operations alone see it (checked by the first checker, chk_trace)
             old.append("(%s, (%s, %s))" % (old_op(op), "(Ok tt)" if out[0] == "ok" else "(Err %s)" % coq_exc(out[1]), I.nodes(snp)))
     ids = coq_list([I.s(e["plain"]) for e in tr.pool], "pystr")
-    return "(%s, %s)" % (ids, coq_list(steps, "xstep_rec")), coq_list(old, "(op bool * (res unit * list snap_node))")
+    return "(%s, %s)" % (ids, coq_list(steps, "cstep_rec")), coq_list(old, "(op bool * (res unit * list snap_node))")
 
 
 def check_xtraces(ctx, runs, shard=10):
-    """chk_xtrace on the full histories and chk_trace on their mutating operations, by vm_compute"""
-    imp = ["Lib.Base", "Lib.PyStr", "Model.Lv", "Model.Db", "Model.DbCheck"]
+    """chk_ctrace (creation-level operations, Model/DbCreate.v) and chk_xtrace (the same steps read as operations of
+    Model/Db.v) on the full histories and chk_trace on their mutating operations, by vm_compute"""
+    imp = ["Lib.Base", "Lib.PyStr", "Model.Lv", "Model.Db", "Model.DbCheck", "Model.DbCreate"]
     jobs = []
     for i in range(0, len(runs), shard):
         part = runs[i:i + shard]
@@ -732,9 +909,11 @@ def check_xtraces(ctx, runs, shard=10):
         ctx.shard_seq += 1
         name = "%s_xtrace_%03d" % (ctx.prop, ctx.shard_seq)
         body = I.prelude() + \
-            "Definition cases : list (list pystr * list xstep_rec) := [\n%s\n].\n" % ";\n".join(t[0] for t in terms) + \
+            "Definition cases : list (list pystr * list cstep_rec) := [\n%s\n].\n" % ";\n".join(t[0] for t in terms) + \
             "Definition ocases : list (list (op bool * (res unit * list snap_node))) := [\n%s\n].\n" % ";\n".join(t[1] for t in terms) + \
-            "Eval vm_compute in (bad_indices chk_xtrace cases).\nEval vm_compute in (bad_indices chk_trace ocases).\n"
+            ("Eval vm_compute in (bad_indices chk_ctrace cases).\n" if ctx.quick else     # thorough: also as a trace of Model/Db.v
+             "Eval vm_compute in (bad_indices (fun c => chk_ctrace c && chk_xtrace (fst c, xsteps_of (snd c))) cases).\n") + \
+            "Eval vm_compute in (bad_indices chk_trace ocases).\n"
         jobs.append((name, body, part, terms))
     from concurrent.futures import ThreadPoolExecutor
 
@@ -754,11 +933,11 @@ def check_xtraces(ctx, runs, shard=10):
         ctx.traces += 2 * len(part)
         dvals = {}
         if bad_x:
-            dbody = I_prelude_of(body) + "".join("Eval vm_compute in (xdiag (nth %d cases ([], []))).\n" % i for i in bad_x[:3])
+            dbody = I_prelude_of(body) + "".join("Eval vm_compute in (cdiag (nth %d cases ([], []))).\n" % i for i in bad_x[:3])
             drc, dout, dv = ctx.coq_eval(name + "_diag", imp, dbody)
             dvals = dict(zip(bad_x[:3], dv))
         for i in bad_x:
-            ctx.mismatch("model and implementation disagree (xtrace, %s[%d]): first differing step and what the model says there"
+            ctx.mismatch("model and implementation disagree (ctrace, %s[%d]): first differing step and what the model says there"
                          % (name, i), part[i].rec, model=(dvals.get(i) or "")[:3000])
         for i in bad_o:
             ctx.mismatch("model and implementation disagree (trace of the mutating operations, %s[%d])" % (name, i), part[i].rec)
@@ -771,7 +950,9 @@ def I_prelude_of(body):
 def codec_cases(ctx, rng, n):
     from idpyoidc.server.util import lv_pack, lv_unpack
     from idpyoidc.server.session.database import Database
-    alpha = ["a", "b", ":", ";", "1", "3", "0", " ", "\n", "\t", "-", "+", "_", "å", "　", "٣", "x", "9"]
+    # \x1c..\x1f are str.isspace() but int() does not skip them (ValueError); \x0b \x0c \x85 \xa0 are skipped
+    alpha = ["a", "b", ":", ";", "1", "3", "0", " ", "\n", "\t", "-", "+", "_", "å", "　", "٣", "x", "9",
+             "\x1c", "\x1f", "\x0b", "\x85", "\xa0"]
     def rs(maxlen=6):
         return "".join(rng.choice(alpha) for _ in range(rng.randint(0, maxlen)))
     packs, unpacks, bks, ubks, ints = [], [], [], [], []
@@ -799,7 +980,8 @@ def codec_cases(ctx, rng, n):
         k = rng.choice([";;".join(args), rs(8)])
         ubks.append(("(%s, %s)" % (coq_str(k), coq_list([coq_str(x) for x in Database.unpack_branch_key(k)], "pystr")),
                      {"unpack_branch_key": k}))
-        s = rng.choice([rs(4), str(rng.randint(0, 10 ** rng.randint(0, 6))), " 12 ", "1_0", "+7", "-3", "", "1__0", "_1", "1_"])
+        s = rng.choice([rs(4), str(rng.randint(0, 10 ** rng.randint(0, 6))), " 12 ", "1_0", "+7", "-3", "", "1__0", "_1", "1_",
+                        "\x1c3", "3\x1f", "\x1d 3", "\x0b3\x0c", "\xa03\x85", "\u20283", "+\xa03", "-0_0"])
         try:
             r = "(Ok %s)" % coq_z(int(s))
             if any(ord(ch) > 127 and not ch.isspace() for ch in s):
@@ -835,6 +1017,12 @@ def run(ctx):
     runs, sids = [], []
     for i in range(ntr):
         t = TraceRun(ctx, server, rng, rng.randint(10, 56), hostile=(i % 3 == 0), scribble=(i % 2 == 1)).run()
+        runs.append(t)
+        sids += t.sid_cases
+    # histories over pools of normalisation-equivalent-but-different identifiers
+    for i in range(36 if ctx.quick else 700):
+        t = TraceRun(ctx, server, rng, rng.randint(20, 56), hostile=False, scribble=(i % 2 == 1), equiv=True).run()
+        ctx.count("pool:normalisation-equivalent")
         runs.append(t)
         sids += t.sid_cases
     check_xtraces(ctx, runs)
